@@ -8891,8 +8891,12 @@ bool SoPlexBase<R>::_parseSettingsLine(char* line, const int lineNumber)
    }
    else
    {
-      *line = '\0';
-      line++;
+      // do not step over the end of the string
+      if(*line != '\0')
+      {
+         *line = '\0';
+         line++;
+      }
 
       // search for the ':' char in the line
       while(*line == ' ' || *line == '\t' || *line == '\r')
@@ -8934,8 +8938,12 @@ bool SoPlexBase<R>::_parseSettingsLine(char* line, const int lineNumber)
    }
    else
    {
-      *line = '\0';
-      line++;
+      // do not step over the end of the string
+      if(*line != '\0')
+      {
+         *line = '\0';
+         line++;
+      }
 
       // search for the '=' char in the line
       while(*line == ' ' || *line == '\t' || *line == '\r')
@@ -9393,8 +9401,12 @@ bool SoPlexBase<R>::parseSettingsString(char* string)
    }
    else
    {
-      *line = '\0';
-      line++;
+      // do not step over the end of the string
+      if(*line != '\0')
+      {
+         *line = '\0';
+         line++;
+      }
 
       // search for the ':' char in the line
       while(*line == ' ' || *line == '\t' || *line == '\r')
@@ -9434,8 +9446,12 @@ bool SoPlexBase<R>::parseSettingsString(char* string)
    }
    else
    {
-      *line = '\0';
-      line++;
+      // do not step over the end of the string
+      if(*line != '\0')
+      {
+         *line = '\0';
+         line++;
+      }
 
       // search for the '=' char in the line
       while(*line == ' ' || *line == '\t' || *line == '\r')
